@@ -866,7 +866,13 @@ def close_and_call(run):
         class C2(FakeConn):
             def recv_bytes(self):
                 return self.reply
-        for reply, want in ((dumps(({'a': 1}, True)), ('ok', {'a': 1})), (dumps((('ValueError', 'boom'), False)), ('exc', 'boom'))):
+        import builtins as _b
+        classes = sorted(k_ for k_, v_ in vars(_b).items() if isinstance(v_, type) and issubclass(v_, BaseException)) + ['NotABuiltin', 'supp.X', '']
+        failures = [(dumps(((c_, m_), False)), ('exc', m_), 'exc-%s-%d' % (c_, i_))
+                    for c_ in classes for i_, m_ in enumerate(('boom', "'k'", '', u'na\xefve \u2713', 'two\nlines'))]
+        prove('failure-replies-cover-every-builtin-exception-class', len(classes) > 60 and 'KeyError' in classes and 'UnicodeDecodeError' in classes, kind='lemma',
+              clause='the class names the server may report: every exception class of builtins and three that are not [%d]' % len(classes), path=path)
+        for reply, want, tag in [(dumps(({'a': 1}, True)), ('ok', {'a': 1}), 'ok'), (dumps((('ValueError', 'boom'), False)), ('exc', 'boom'), 'exc')] + failures:
             e3 = R.Environment()
             e3.conn = C2(w)
             e3.conn.reply = reply
@@ -874,9 +880,9 @@ def close_and_call(run):
                 got = ('ok', e3._call('assist', 'src', (1, 2), 'f.py', k=1))
             except Exception as e:
                 got = ('exc', str(e))
-            prove('call-%s' % want[0], got == want and len(e3.conn.sent) == 1 and
+            prove('call-%s' % tag, got == want and len(e3.conn.sent) == 1 and
                   loads(e3.conn.sent[0]) == ['assist', ['src', [1, 2], 'f.py'], {'k': 1}],
-                  clause='one request (name, args, kwargs); result returned / server message raised', path=path)
+                  clause='one request (name, args, kwargs); result returned / an exception whose text is exactly the server\'s message raised [%r, wanted %r]' % (got, want), path=path)
         run.case = None
     core.explore(lambda: None, lambda p, out: go(p))
 
